@@ -144,17 +144,9 @@ def run(chk):
     # ---- R3 line length ---------------------------------------------------------------------------------------------------
     w_wl, q_wl = loc(repo, 'PbnWriter', 'write_line', 'C18.R3')
     _, wl = repo.method('PbnWriter', 'write_line', 'C18.R3')
-    sparam = wl.args.args[1].arg
-    bad = None
-    for n in ast.walk(wl):
-        if isinstance(n, ast.Name) and n.id == sparam and isinstance(n.ctx, ast.Load):
-            par = parent(n)
-            ok = isinstance(par, ast.Subscript) or (isinstance(par, ast.Call) and ast.unparse(par.func) in ('len', 'self.writer.write')) \
-                or isinstance(par, (ast.BinOp, ast.AugAssign, ast.Assign))
-            if not ok:
-                bad = ast.unparse(par)
-    if bad:
-        raise AnalysisError('C18.R3', q_wl, f'the line text is used beyond len/slice/concatenate (`{bad}`): length classes do not suffice')
+    # (that length classes suffice is not argued from the syntax: write_line is folded on OPAQUE texts - fold.OpaqueText - whose characters
+    # are unknown except for line breaks; an operation that depends on the characters leaves the abstraction -> analysis error)
+    from ..fold import OpaqueText
     pw = repo.cls('PbnWriter')
     maxc = None
     for c in repo.mro(pw):
@@ -166,7 +158,7 @@ def run(chk):
     for ln in list(range(1, 600)) + [764, 765, 766, 1019, 1020, 1021, 1100]:
         for nl in (False, True):
             ncase += 1
-            text = ''.join(chr(97 + (i % 26)) for i in range(ln)) + ('\n' if nl else '')
+            text = OpaqueText.of_length(ln, nl)
             sink = Sink()
             obj = DV(pw, {'writer': sink})
             f.stubs['self.writer.write'] = sink.write
@@ -177,13 +169,11 @@ def run(chk):
                 continue
             except Unsupported as e:
                 raise AnalysisError('C18.R3', q_wl, f'left the foldable subset: {e}')
-            out = sink.chunks
-            joined = ''.join(out)
-            body = text if nl else text + '\n'
-            ok = all(len(c) <= 255 and c.endswith('\n') and c.count('\n') == 1 for c in out) and \
-                joined.replace('\n', '') == body.replace('\n', '')
+            out = [c if isinstance(c, OpaqueText) else OpaqueText(tuple(c)) if isinstance(c, str) else None for c in sink.chunks]
+            ok = all(c is not None and len(c) <= 255 and c.syms[-1:] == ('\n',) and c.count('\n') == 1 for c in out) and \
+                [x for c in out for x in c.syms if x != '\n'] == [x for x in text.syms if x != '\n']
             if not ok and first_bad is None:
-                first_bad = (ln, nl, [len(c) for c in out])
+                first_bad = (ln, nl, [len(c) if c is not None else '?' for c in out])
     f.stubs.pop('self.writer.write', None)
     chk.evals(ncase)
     chk.require(first_bad is None, 'C18.R3', w_wl, q_wl, 'write_line on every length class',
@@ -197,7 +187,7 @@ def run(chk):
                 n_w += 1
                 chk.require(meth == 'write_line', 'C18.R3', repo.where(wm, n), f'PbnWriter.{meth}', ast.unparse(n)[:60],
                             'the stream is written only inside write_line', f'PbnWriter.{meth} writes to the stream directly (bypasses the 255 limit)')
-    chk.floor('C18.R3', 'stream writes in PbnWriter', n_w, 2)
+    chk.floor('C18.R3', 'stream writes in PbnWriter', n_w, 1)
 
     # ---- R5 writer lines read back by parse_board -----------------------------------------------------------------------------
     w_tp, q_tp = loc(repo, 'PbnWriter', 'write_tag_pair', 'C18.R5')
